@@ -16,10 +16,28 @@ SRC = "spqlios/coeffs/coeffs_arithmetic.c"
 SRC_VEC = "spqlios/arithmetic/vec_znx.c"
 SRC_AVX = "spqlios/coeffs/coeffs_arithmetic_avx.c"
 SRC_VECAVX = "spqlios/arithmetic/vec_znx_avx.c"
-ALL_SRCS = [SRC, SRC_VEC, SRC_AVX, SRC_VECAVX]
+SRC_Q120REF = "spqlios/q120/q120_arithmetic_ref.c"
+SRC_Q120SIMPLE = "spqlios/q120/q120_arithmetic_simple.c"
+SRC_DFT = "spqlios/arithmetic/vec_znx_dft.c"
+SRC_SVP = "spqlios/arithmetic/scalar_vector_product.c"
+SRC_SMALL = "spqlios/arithmetic/znx_small.c"
+SRC_VMP = "spqlios/arithmetic/vector_matrix_product.c"
+ALL_SRCS = [SRC, SRC_VEC, SRC_AVX, SRC_VECAVX, SRC_Q120REF, SRC_Q120SIMPLE, SRC_DFT, SRC_SVP, SRC_SMALL, SRC_VMP]
+# static helpers inlined into translated q120 functions: helper -> (source, property module of a function using it)
+Q120_HELPERS = {"accum_mul_q120_bc": "SpqProofs.Properties.SrcQ120", "accum_to_q120b": "SpqProofs.Properties.SrcQ120"}
 
 # property module holding the theorems of a function
 def module_of(fn):
+    if fn.startswith("fft64_vmp_"):
+        return "SpqProofs.Properties.SrcModVmp"
+    if fn.startswith("fft64_"):
+        return "SpqProofs.Properties.SrcMod"
+    if fn in Q120_HELPERS:
+        return Q120_HELPERS[fn]
+    if fn.startswith("q120x2_vec_"):
+        return "SpqProofs.Properties.SrcQ120X2"
+    if fn.startswith("q120"):
+        return "SpqProofs.Properties.SrcQ120"
     if fn.startswith("vec_znx_") and fn.endswith("_avx"):
         return "SpqProofs.Properties.SrcVecAvx"
     if fn.startswith("vec_znx_normalize"):
@@ -37,13 +55,25 @@ def module_of(fn):
     return "SpqProofs.Properties.SrcElem"
 
 def src_of(fn):
+    if fn.startswith("fft64_vmp_"):
+        return SRC_VMP
+    if fn.startswith("fft64_vec_znx_"):
+        return SRC_DFT
+    if fn.startswith("fft64_svp_"):
+        return SRC_SVP
+    if fn.startswith("fft64_znx_small"):
+        return SRC_SMALL
+    if fn.startswith("q120") or fn in Q120_HELPERS:
+        return SRC_Q120SIMPLE if fn.endswith("_simple") else SRC_Q120REF
     if fn.startswith("vec_znx_"):
         return SRC_VECAVX if fn.endswith("_avx") else SRC_VEC
     return SRC_AVX if fn.endswith("_avx") else SRC
 
 ALL_MODULES = ["SpqProofs.Properties.SrcElem", "SpqProofs.Properties.SrcRot", "SpqProofs.Properties.SrcNorm",
                "SpqProofs.Properties.SrcVec", "SpqProofs.Properties.SrcAutIn", "SpqProofs.Properties.SrcAvx",
-               "SpqProofs.Properties.SrcVecAvx", "SpqProofs.Properties.SrcVecNorm"]
+               "SpqProofs.Properties.SrcVecAvx", "SpqProofs.Properties.SrcVecNorm",
+               "SpqProofs.Properties.SrcQ120", "SpqProofs.Properties.SrcQ120X2",
+               "SpqProofs.Properties.SrcMod", "SpqProofs.Properties.SrcModVmp"]
 
 # (id, kind, description, function the edit is made in, old text, new text, occurrence index inside the function)
 CASES = [
@@ -97,6 +127,62 @@ CASES = [
      "vec_znx_normalize_base2k_ref", "znx_normalize(nn, log2_base2k, 0x0, cout, a + i * a_sl, cin);\n    cin = cout;", "znx_normalize(nn, log2_base2k, 0x0, cout, a + i * a_sl, cin);", 0),
     ("W8", "semantic", "vec_znx_normalize_base2k_tmp_bytes_ref: `sizeof(int64_t)` -> `sizeof(int32_t)`",
      "vec_znx_normalize_base2k_tmp_bytes_ref", "sizeof(int64_t)", "sizeof(int32_t)", 0),
+    ("Q1", "semantic", "q120_vec_mat1col_product_baa_ref: `acc2[j] += t >> H` -> `t >> (H + 1)`",
+     "q120_vec_mat1col_product_baa_ref", "acc2[j] += t >> H;", "acc2[j] += t >> (H + 1);", 0),
+    ("Q2", "semantic", "q120_vec_mat1col_product_baa_ref: recombination uses `h_pow_red[0]` for every prime",
+     "q120_vec_mat1col_product_baa_ref", "precomp->h_pow_red[j];", "precomp->h_pow_red[0];", 0),
+    ("Q3", "semantic", "accum_mul_q120_bc (inlined): `y_hi = y_layc[2 * i + 1]` -> `y_layc[2 * i]`",
+     "accum_mul_q120_bc", "uint64_t y_hi = y_layc[2 * i + 1];", "uint64_t y_hi = y_layc[2 * i];", 0),
+    ("Q4", "semantic", "accum_to_q120b (inlined): `s2h_pow_red[k]` and `s2l_pow_red[k]` swapped in the first product",
+     "accum_to_q120b", "t += s2l * precomp->s2l_pow_red[k];", "t += s2l * precomp->s2h_pow_red[k];", 0),
+    ("Q5", "semantic", "q120x2_vec_mat2cols_product_bbc_ref: third accumulator reads column `y_ptr[i][3]` instead of `[2]`",
+     "q120x2_vec_mat2cols_product_bbc_ref", "accum_mul_q120_bc(s[2], x_ptr[i][0], y_ptr[i][2]);",
+     "accum_mul_q120_bc(s[2], x_ptr[i][0], y_ptr[i][3]);", 0),
+    ("Q6", "semantic", "q120x2b_save_1blk_to_q120b_ref: `out[8 * blk + i]` -> `out[4 * blk + i]`",
+     "q120x2b_save_1blk_to_q120b_ref", "out[8 * blk + i] = in[i];", "out[4 * blk + i] = in[i];", 0),
+    ("Q7", "semantic", "q120x2_extract_1blk_from_contiguous_q120b_ref: row stride `in += 4 * nn` -> `in += 8 * nn`",
+     "q120x2_extract_1blk_from_contiguous_q120b_ref", "in += 4 * nn;", "in += 8 * nn;", 0),
+    ("Q8", "semantic", "q120_add_ccc_simple: word 5 reduced modulo Q4 instead of Q3",
+     "q120_add_ccc_simple", "(uint64_t)y_u32[i + 5]) % Q3);", "(uint64_t)y_u32[i + 5]) % Q4);", 0),
+    ("Q9", "semantic", "q120_c_from_b_simple: `<< 32` -> `<< 31` in the second word of prime 2",
+     "q120_c_from_b_simple", "((uint64_t)res_u32[j + 2] << 32) % Q2;", "((uint64_t)res_u32[j + 2] << 31) % Q2;", 0),
+    ("Q10", "semantic", "q120_b_from_znx64_simple: `OQ[2]` -> `OQ[3]` in lane 2",
+     "q120_b_from_znx64_simple", "res_u64[i + 2] = xj_lo + (xj_hi ? OQ[2] : 0);", "res_u64[i + 2] = xj_lo + (xj_hi ? OQ[3] : 0);", 0),
+    ("Q11", "semantic", "q120_add_bbb_simple: `<< 33` -> `<< 34` for y in lane 1 (the sum may wrap)",
+     "q120_add_bbb_simple", "y_u64[i + 1] % ((uint64_t)Q2 << 33);", "y_u64[i + 1] % ((uint64_t)Q2 << 34);", 0),
+    ("Q12", "semantic", "q120_vec_mat1col_product_bbb_ref: loop bound `4 * ell` -> `4 * ell + 4` (reads one element too many)",
+     "q120_vec_mat1col_product_bbb_ref", "i < 4 * ell;", "i < 4 * ell + 4;", 0),
+    ("D1", "semantic", "fft64_vec_znx_dft: source limb `a + i * a_sl` -> `a + i * nn` (ignores the stride)",
+     "fft64_vec_znx_dft", "a + i * a_sl", "a + i * nn", 0),
+    ("D2", "semantic", "fft64_vec_znx_idft: the copy is done when `res == a_dft` instead of `!=`",
+     "fft64_vec_znx_idft", "if ((double*)res != (double*)a_dft)", "if ((double*)res == (double*)a_dft)", 0),
+    ("D3", "semantic", "fft64_vec_znx_idft_tmp_a: the zero extension clears `res_size * nn` cells instead of `(res_size - smin) * nn`",
+     "fft64_vec_znx_idft_tmp_a", "memset(tres + smin * nn, 0, (res_size - smin) * nn * sizeof(double));",
+     "memset(tres + smin * nn, 0, res_size * nn * sizeof(double));", 0),
+    ("D4", "semantic", "fft64_svp_apply_dft_ref: `reim_fftvec_mul(.., res_ptr, res_ptr, dppol)` -> `(.., res_ptr, dppol, dppol)`",
+     "fft64_svp_apply_dft_ref", "res_ptr, res_ptr, dppol);", "res_ptr, dppol, dppol);", 0),
+    ("D5", "semantic", "fft64_znx_small_single_product: `fftb = tmp + nn` -> `tmp + 2 * nn`",
+     "fft64_znx_small_single_product", "((double*)tmp) + nn;", "((double*)tmp) + 2 * nn;", 0),
+    ("D6", "semantic", "fft64_svp_prepare_ref: `reim_fft` is given the inverse tables `p_ifft` (a C compiler only warns)",
+     "fft64_svp_prepare_ref", "reim_fft(module->mod.fft64.p_fft, (double*)ppol);",
+     "reim_fft(module->mod.fft64.p_ifft, (double*)ppol);", 0),
+    ("V1", "semantic", "fft64_vmp_prepare_contiguous_ref: column-pair stride `(2 * nrows)` -> `nrows`",
+     "fft64_vmp_prepare_contiguous_ref", "(col_i / 2) * (2 * nrows) * 8", "(col_i / 2) * nrows * 8", 0),
+    ("V2", "semantic", "fft64_vmp_prepare_contiguous_ref: block loop `blk_i < m / 4` -> `blk_i <= m / 4`",
+     "fft64_vmp_prepare_contiguous_ref", "blk_i < m / 4", "blk_i <= m / 4", 0),
+    ("V3", "semantic", "fft64_vmp_apply_dft_to_dft_ref: second save of a pair reads `mat2cols_output` instead of `+ 8`",
+     "fft64_vmp_apply_dft_to_dft_ref", "vec_output + (col_i + 1) * nn, mat2cols_output + 8);",
+     "vec_output + (col_i + 1) * nn, mat2cols_output);", 0),
+    ("V4", "semantic", "fft64_vmp_apply_dft_to_dft_ref: lone last column test `ncols == col_max` -> `!=`",
+     "fft64_vmp_apply_dft_to_dft_ref", "if (ncols == col_max)", "if (ncols != col_max)", 0),
+    ("V5", "semantic", "fft64_vmp_apply_dft_to_dft_ref (nn < 8): accumulation starts at row 0 instead of row 1",
+     "fft64_vmp_apply_dft_to_dft_ref", "for (uint64_t row_i = 1; row_i < row_max; row_i++)",
+     "for (uint64_t row_i = 0; row_i < row_max; row_i++)", 0),
+    ("V6", "semantic", "fft64_vmp_apply_dft_ref: scratch of the inner call starts `rows` cells (not `rows * nn`) into tmp_space",
+     "fft64_vmp_apply_dft_ref", "(uint8_t*)tmp_space + rows * nn * sizeof(double);",
+     "(uint8_t*)tmp_space + rows * sizeof(double);", 0),
+    ("H11", "harmless", "fft64_vec_znx_dft: `i++` -> `++i`", "fft64_vec_znx_dft", "i++", "++i", 0),
+    ("H10", "harmless", "q120_add_bbb_simple: `i += 4` -> `i = i + 4`", "q120_add_bbb_simple", "i += 4", "i = i + 4", 0),
     ("H1", "harmless", "znx_rotate_i64: rename locals `nma` -> `n_minus_a`, `j` -> `jj`", "znx_rotate_i64",
      None, None, 0),
     ("H2", "harmless", "znx_automorphism_i64: swap the independent statements `res[0] = in[0];` and `uint64_t a = 0;`",
@@ -111,6 +197,21 @@ CASES = [
     ("H9", "harmless", "vec_znx_normalize_base2k_ref: zero-extension loop `++i` -> `i++`", "vec_znx_normalize_base2k_ref",
      "++i", "i++", 0),
     ("H7", "harmless", "vec_znx_copy_ref: `++i` -> `i++` in the first loop", "vec_znx_copy_ref", "++i", "i++", 0),
+]
+
+
+# translator probes: synthetic functions appended to a source file; the translator must REJECT them (constructs the IR
+# would mistranslate).  (id, description, source file, function name, C text, expected fragment of the message)
+PROBES = [
+    ("P1", "double used as a truth value", SRC, "probe_bool_f64",
+     "void probe_bool_f64(uint64_t nn, double* res, const double* a) {\n  for (uint64_t i = 0; i < nn; ++i) {\n    if (a[i]) res[i] = a[i];\n  }\n}\n",
+     "truth value"),
+    ("P2", "pointer cast that changes the element type (double* -> int64_t*)", SRC, "probe_ptr_cast",
+     "void probe_ptr_cast(uint64_t nn, int64_t* res, const double* a) {\n  memcpy(res, (const int64_t*)a, nn * sizeof(int64_t));\n}\n",
+     "changes the element type"),
+    ("P3", "a*b + c on doubles in a file compiled with -mfma", SRC_AVX, "probe_fma",
+     "void probe_fma(uint64_t nn, double* res, const double* a, const double* b) {\n  for (uint64_t i = 0; i < nn; ++i) {\n    res[i] = a[i] * b[i] + res[i];\n  }\n}\n",
+     "fused"),
 ]
 
 
@@ -180,6 +281,20 @@ def main():
                 detail = (errs[0][:220] if errs else "")
             results.append((case[0], case[1], case[2], verdict, detail, time.time() - t0))
             print(f"{case[0]} [{case[1]}] {case[2]}\n    -> {verdict} ({mod.split('.')[-1]}, {time.time() - t0:.0f}s)  {detail}", flush=True)
+        # translator probes
+        probe_bad = []
+        for pid, desc, src, fname, ctext, frag in PROBES:
+            if only and pid not in only:
+                continue
+            for f in ALL_SRCS:
+                open(os.path.join(scratch, f), "w").write(pristine[f])
+            open(os.path.join(scratch, src), "a").write("\n" + ctext)
+            rc_g, out_g = run([sys.executable, os.path.join(VERIF, "tools", "c2lean.py"), fname], env=env)
+            rejected = (rc_g != 0 or fname + "'" in out_g and "'unsupported': {}" not in out_g) and frag in out_g
+            print(f"{pid} [probe] {desc}\n    -> {'rejected' if rejected else 'ACCEPTED'}  {out_g.strip().splitlines()[-1][:200]}", flush=True)
+            if not rejected:
+                probe_bad.append(pid)
+        results.append(("probes", "probe", "", "ok" if not probe_bad else "build-passes", ",".join(probe_bad), 0))
     finally:
         for f in ALL_SRCS:
             open(os.path.join(scratch, f), "w").write(pristine[f])
@@ -187,7 +302,7 @@ def main():
         rc, out = run(["lake", "build"] + ALL_MODULES, cwd=os.path.join(VERIF, "lean"))
         print("restored pristine Gen/CSrc.lean; build of the Src* property modules:", "ok" if rc == 0 else "FAILS")
         shutil.rmtree(scratch, ignore_errors=True)
-    bad = [r for r in results if r[1] == "semantic" and r[3] == "build-passes"]
+    bad = [r for r in results if r[1] in ("semantic", "probe") and r[3] == "build-passes"]
     print(f"semantic mutations detected: {sum(1 for r in results if r[1] == 'semantic' and r[3] != 'build-passes')}"
           f"/{sum(1 for r in results if r[1] == 'semantic')};  harmless rewrites surviving: "
           f"{sum(1 for r in results if r[1] == 'harmless' and r[3] == 'build-passes')}/{sum(1 for r in results if r[1] == 'harmless')}")
